@@ -54,3 +54,8 @@ pub fn verif_range_map_collect<F: Fn(usize) -> u64>(n: usize, f: F) -> (v: Box<[
     requires forall|i: usize| 0 <= i < n ==> f.requires((i,)),
     ensures v@.len() == n, forall|i: usize| 0 <= i < n ==> f.ensures((i,), #[trigger] v@[i as int]),
 { (0..n).map(f).collect() }
+// uniform abstract accessors (shared vocabulary of generic code instantiated per implementation, e.g. BitIterator)
+impl Bvd {
+    pub open spec fn alen(&self) -> usize { self.length }
+    pub open spec fn abit(&self, i: int) -> bool { bit_at{X}(self.data@, i) }
+}
